@@ -11,7 +11,9 @@
    The model must reproduce (a) every HashValue outcome, (b) the SET of
    (datatype, leaf, proof value, kind) tuples from the document values alone
    (RDF is a set: repeated values collapse), and (c) the float-formatting
-   hypotheses of LeafTheory.v must hold for every float that occurs.
+   hypothesis of LeafTheory.v (a canonical double re-parses to a float with the
+   same canonical form) must hold for every float that occurs, and float_int64
+   must reproduce the recorded int64 round trip of every float.
    `g_pair = false` (the implementation-side oracle already reported that the
    path does not lead to the document value of this leaf) skips (b). *)
 From Coq Require Import ZArith List String Ascii Bool Uint63.
@@ -59,7 +61,7 @@ Definition seteq_t (a b : list tuple) : bool := subset_t a b && subset_t b a.
 
 (* model of the leaf side for one document value *)
 Definition model_tuple (H : hasher) (F : floats) (X : floats_ext) (e : docelem) : option tuple :=
-  match to_rdf_lex F X (fst e) (jval_of (snd e)) with
+  match to_rdf_lex F (fst e) (jval_of (snd e)) with
   | Ok (lex, dt) =>
     match leaf_entry F dt lex (h_prime H) with
     | Ok x =>
@@ -97,37 +99,18 @@ Definition canon_idem_at (F : floats) (b : Z) : bool :=
     end
   end.
 
-Definition ten16 : Z := 10000000000000000%Z.
-
-Definition int_exact_at (F : floats) (X : floats_ext) (b : Z) : bool :=
-  match f_int64 X b with
-  | None => false
-  | Some None => true
-  | Some (Some z) =>
-    if (Z.abs z <? ten16)%Z then
-      match f_canon F b with
-      | Some c => match int_from_str c with Some z' => Z.eqb z z' | None => false end
-      | None => false
-      end
-    else true
+(* Value.Model.float_int64 reproduces the recorded outcome of the real test
+   `f == float64(int64(f))` / value of int64(f) *)
+Definition int64_at (X : floats_ext) (b : Z) : bool :=
+  match f_int64 X b, float_int64 b with
+  | Some None, None => true
+  | Some (Some z), Some z' => Z.eqb z z'
+  | _, _ => false
   end.
-
-Definition zero_one_at (F : floats) (X : floats_ext) (b : Z) : bool :=
-  if Z.eqb b bits_zero then
-    match f_int64 X b, f_canon F b with
-    | Some (Some z), Some c => Z.eqb z 0 && String.eqb c "0.0E0"
-    | _, _ => false
-    end
-  else if Z.eqb b bits_one then
-    match f_int64 X b, f_canon F b with
-    | Some (Some z), Some c => Z.eqb z 1 && String.eqb c "1.0E0"
-    | _, _ => false
-    end
-  else true.
 
 Definition float_hyps_val (F : floats) (X : floats_ext) (dt : option string) (v : jval) : bool :=
   match v with
-  | JNum b => canon_idem_at F b && int_exact_at F X b && zero_one_at F X b
+  | JNum b => canon_idem_at F b && int64_at X b
   | JStr s =>
     match dt with
     | Some d =>
